@@ -36,7 +36,9 @@ fn substituted(settings: &TypeSpaceSettings, crate_name: &str, version: &str, pa
 }
 
 fn expect(got: Option<String>, want: Option<&str>, msg: &'static str) {
-    if got.as_deref() != want {
+    // the leading `::` of the rendered path is representation, not policy
+    let norm = |s: &str| s.trim_start_matches("::").to_string();
+    if got.as_deref().map(norm) != want.map(norm) {
         panic!("{} (got {:?}, want {:?})", msg, got, want);
     }
 }
